@@ -19,8 +19,8 @@ T2: scenarios = (format 2a|git, options reprocess/show-base/cherrypick, front
     take_this / take_other through breezy.conflicts.resolve (sometimes after
     deleting or editing a helper = malformed stream) and the slot afterwards is
     compared with `resolveText` / `resolveContents`.  Also compared:
-    osutils.split_lines vs `splitLines`, the harness' sentinel classifier vs
-    the decidable hypothesis `NoSentinel`.
+    osutils.split_lines vs `splitLines`, the start marker (`freshMarker`) and
+    the theorems' hypothesis `FromInputs` on every case.
 Oracle (model-independent): record present <=> merge3 reports a conflict
     region (and both sides changed differently); file == conventional marker
     rendering of the regions / == clean merge; helpers == the three texts
@@ -29,21 +29,25 @@ Oracle (model-independent): record present <=> merge3 reports a conflict
 Run-time-checked assumption on merge3: the regions reproduce THIS and OTHER
     (projections), and the text-level laws hold.
 
-Findings on the unchanged tree (families computed from the input):
-  sentinel-line-in-input          F3: a BASE/THIS/OTHER line starts with the sentinel
-  contents-conflict-both-present-take-this
-                                  binary (NUL) on both sides: resolve --take-this leaves
-                                  the file versioned-but-missing and p.THIS behind
+History: two defects found by this check were repaired in /repo (fix: commits
+40e57db sentinel collision, b2b6407 contents-conflict take-this); the model
+follows the repaired code, no known-finding family is left: any oracle failure
+is a plain VIOLATION.  "Fix reverted" mutants: reverting either commit gives a
+VIOLATION with a concrete input (sentinel line in a clean merge; binary
+both-sides take_this).
 
 Mutants this was built against (scratch worktrees, all caught with a concrete
 input): (1) `startswith(start_marker)` -> `start_marker in line`; (2) flag set
 only when `line == start_marker + b" TREE\n"` (CRLF / bare-CR first line of
 THIS); (3) `_dump_conflicts` lines order (base, other, this) permuted -> helper
 files swapped; (4) TextConflict.action_take_this resolves with "OTHER";
-(5) `replace(start_marker, b"<" * 7)` -> `b"<" * 6`; (6) text_merge records the
+(5) the replacement `b"<" * 7` -> `b"<" * 6`; (6) text_merge records the
 conflict but skips _dump_conflicts; (7) cleanup() skipping .BASE; (8) base_marker
 always None (show_base ignored); (9) `if retval["text_conflicts"] is True` ->
 `is not None` (every text merge records a conflict).
+(10) the marker-extension loop removed (= fix reverted); (11) `+= b"!"` only once
+(`if` instead of `while`: needs a line starting with the once-extended marker);
+(12) ContentsConflict hand-over removed (= fix reverted).
 Harmless rewrite kept clean: iter_merge3 building a list instead of yielding;
 sentinel split differently (`b"!START OF MERGE " + b"CONFLICT!I HOPE THIS IS UNIQUE"`).
 """
@@ -55,12 +59,12 @@ from vlib import env
 
 THEOREMS = [
     "text_merge_spec", "render_conflict_iff", "flag_of_conflict", "render_clean", "text_merge_clean",
-    "render_append", "render_content_plain", "render_content_show_base", "sentinel_collision_witness",
+    "marker_fresh", "render_append", "render_content_plain", "render_content_show_base", "sentinel_line_clean",
     "join_splitLines", "helpers_exact", "merge_file_spec", "resolve_text", "resolve_take_this",
     "resolve_take_other", "merge_then_resolve", "resolve_contents_take_other",
-    "resolve_contents_take_this_witness",
+    "resolve_contents_take_this",
 ]
-T1_THEOREMS = ["sentinel_gen_eq", "replacement_gen_eq", "base_marker_gen_eq", "names_gen_eq"]
+T1_THEOREMS = ["sentinel_gen_eq", "replacement_gen_eq", "extension_gen_eq", "base_marker_gen_eq", "names_gen_eq"]
 RULE = ("scenario = (format, reprocess, show_base, cherrypick, front end); case = one file = (BASE, THIS, OTHER) "
         "texts over an alphabet with marker look-alikes, the sentinel, CR/CRLF endings, missing final newline, NUL; "
         "plus one resolve step per recorded conflict; non-trivial = both sides changed the text differently "
@@ -74,8 +78,6 @@ TRUSTED = ["merge3 region computation and patiencediff (external) are inputs of 
            "tree transform apply / rename machinery is covered by C13/C14, here only its observable result"]
 
 SENT = b"!START OF MERGE CONFLICT!I HOPE THIS IS UNIQUE"
-F_SENT = "sentinel-line-in-input"
-F_CONTENTS = "contents-conflict-both-present-take-this"
 
 
 # --------------------------------------------------------------------------
@@ -101,26 +103,34 @@ def extract(ctx):
         if isinstance(n, ast.Assign) and len(n.targets) == 1 and isinstance(n.targets[0], ast.Name):
             if n.targets[0].id in ("start_marker", "base_marker"):
                 vals[n.targets[0].id] = _const(n.value)
+        if isinstance(n, ast.AugAssign) and isinstance(n.target, ast.Name) and n.target.id == "start_marker" \
+                and isinstance(n.op, ast.Add):
+            vals["extension"] = _const(n.value)
         if isinstance(n, ast.Call) and isinstance(n.func, ast.Attribute):
             if n.func.attr == "merge_lines":
                 for k in n.keywords:
                     if k.arg in ("name_a", "name_b", "name_base"):
                         vals[k.arg] = _const(k.value)
-            if n.func.attr == "replace" and len(n.args) == 2:
-                vals["replacement"] = _const(n.args[1])
-    need = ("start_marker", "base_marker", "name_a", "name_b", "name_base", "replacement")
+        if isinstance(n, ast.Yield) and isinstance(n.value, ast.BinOp) and isinstance(n.value.op, ast.Add):
+            # yield b"<" * 7 + line[len(start_marker):]
+            try:
+                vals["replacement"] = _const(n.value.left)
+            except ValueError:
+                pass
+    need = ("start_marker", "base_marker", "name_a", "name_b", "name_base", "replacement", "extension")
     if any(k not in vals or not isinstance(vals[k], bytes) for k in need):
         raise ex.ExtractError("text_merge constants not found: %r" % sorted(vals))
     text = ("-- GENERATED by harness/checks/c19.py from breezy/merge.py (Merge3Merger.text_merge) — do not edit\n"
             "import BreezyVerif.Model.C19\nnamespace BreezyVerif.C19\n"
             "def sentinelGen : Bytes := %s\n"
             "def replacementGen : Bytes := %s\n"
+            "def extensionGen : Bytes := %s\n"
             "def baseMarkerGen : Bytes := %s\n"
             "def nameAGen : Bytes := %s\n"
             "def nameBGen : Bytes := %s\n"
             "def nameBaseGen : Bytes := %s\n"
             "end BreezyVerif.C19\n") % tuple(ex.lean_bytes(vals[k]) for k in
-                                             ("start_marker", "replacement", "base_marker", "name_a", "name_b", "name_base"))
+                                             ("start_marker", "replacement", "extension", "base_marker", "name_a", "name_b", "name_base"))
     ex.write_if_changed(os.path.join(env.VERIF, "lean/BreezyVerif/Generated/C19.lean"), text)
     return "regenerated text_merge constants"
 
@@ -131,7 +141,7 @@ def extract(ctx):
 BODIES = [b"a", b"b", b"c", b"d", b"e", b"x", b"y", b"", b" ", b"a", b"b", b"c",
           b"<<<<<<< TREE", b"=======", b">>>>>>> MERGE-SOURCE", b"||||||| BASE-REVISION", b"<<<<<<<", b">>>>>>>",
           b"x" + SENT, b" " + SENT]
-SENT_BODIES = [SENT, SENT + b" TREE", SENT + b" x", SENT + SENT, SENT + b"\r"]
+SENT_BODIES = [SENT, SENT + b" TREE", SENT + b" x", SENT + SENT, SENT + b"\r", SENT + b"!", SENT + b"!! TREE", SENT + b"!x"]
 
 
 def gen_line(rng, sent_p):
@@ -518,9 +528,7 @@ def evaluate(ctx, sc, res):
     for i, (b, t, o) in enumerate(sc["triples"]):
         bl, tl, ol, regs, out, changed_both, binary = per_file[i]
         case = case_of(sc, i)
-        fam = None
-        if has_sentinel_line((b, t, o)):
-            fam = F_SENT
+        fam = None          # no known family: every oracle failure is a plain VIOLATION
         ctx.case([case["fmt"], R, S, sc["cherrypick"], sc["via"], case["base"], case["this"], case["other"], case["action"], case["pre"]],
                  nontrivial=changed_both)
         ctx.count("fmt:" + sc["fmt"]); ctx.count("opts:R%sS%sC%s" % (R, S, "T" if sc["cherrypick"] else "F"))
@@ -529,19 +537,24 @@ def evaluate(ctx, sc, res):
                                  "other=base" if b == o else "this=base"))
         if not (t.endswith(b"\n") or not t) or not (o.endswith(b"\n") or not o) or not (b.endswith(b"\n") or not b):
             ctx.count("missing-final-newline")
-        if fam:
+        if has_sentinel_line((b, t, o)):
             ctx.count("sentinel-line")
         if binary:
             ctx.count("binary")
         # split_lines correspondence
         for txt, ls in ((b, bl), (t, tl), (o, ol)):
             cases.append(dict(op="split_lines", text=txt.hex())); lines.append("sl %s" % hexb(txt)); outs.append(enc_lines(ls))
-        # the sentinel classifier of this harness vs the hypothesis of the theorem
-        emitted_sent = any(l.startswith(SENT) for r in out for part in
-                           ((r[2], r[3]) + ((r[1] or [],) if sc["show_base"] else ()) if r[0] == "c" else (r[1],))
-                           for l in part)
-        cases.append(dict(op="NoSentinel", case=case)); lines.append("ns %s %s" % (S, enc_regions(out)))
-        outs.append("F" if emitted_sent else "T")
+        # the theorems' hypothesis (regions denote input lines) and the marker's freshness, on this case
+        cases.append(dict(op="FromInputs", case=case))
+        lines.append("fi %s %s %s %s %s" % (S, enc_lines(bl), enc_lines(tl), enc_lines(ol), enc_regions(out)))
+        outs.append("T")
+        mk = SENT
+        while any(l.startswith(mk) for l in bl + ol + tl):
+            mk += b"!"
+        cases.append(dict(op="marker", case=case))
+        lines.append("mk %s %s %s" % (enc_lines(bl), enc_lines(tl), enc_lines(ol)))
+        outs.append(mk.hex())
+        ctx.count("marker-extensions:%d" % (len(mk) - len(SENT)))
         if res["merge_exc"]:
             if both and need_text_merge:
                 # model: this file or an earlier one raises; compare only the files that need a text merge
@@ -599,8 +612,6 @@ def evaluate(ctx, sc, res):
             good = [want, None, None, None, None, "item"]
             if after != good:
                 f2 = fam
-                if before[4] == "contents" and side == "this" and before[3] is not None and before[2] is not None:
-                    f2 = F_CONTENTS
                 ctx.violation(dict(case, step="resolve"), "after %s: %s, expected file=%r, no helpers, no record, versioned" % (
                     action, slot_str(after), want), family=f2)
         elif pre is None and exc is not None:
@@ -623,7 +634,9 @@ def run(ctx, scale=1):
     scs = []
     # corpus first: the F3 witness, CRLF first line, bare CR, no trailing newline
     corpus = [
-        (b"a\nb\n", b"a\n" + SENT + b" x\nb\n", b"a\nb\nc\n"),
+        (b"a\nb\n", b"a\n" + SENT + b" x\nb\n", b"a\nb\nc\n"),                 # former F3 witness: now clean
+        (b"a\nb\n", b"a\n" + SENT + b"! TREE\nB\n", b"a\n" + SENT + b"\nX\n"),     # conflict + lines starting with marker and marker!
+
         (b"a\r\nb\r\n", b"a\r\nB\r\n", b"a\r\nX\r\n"),
         (b"a", b"b\r", b"c"),
         (b"a\nb\nc", b"a\nB\nc", b"a\nX\nc"),
@@ -637,7 +650,7 @@ def run(ctx, scale=1):
                             actions=[["take_this" if (i + r) % 2 == 0 else "take_other", None] for i in range(len(tr))]))
     for k in range(nsc):
         fmt = "2a" if k % 3 != 2 else "git"
-        scs.append(gen_scenario(ctx, fmt, nfiles, sent_p=0.012, bin_p=0.04))
+        scs.append(gen_scenario(ctx, fmt, nfiles, sent_p=0.05, bin_p=0.04))
     results = ctx.pmap(_run_sc, scs)
     cases, lines, outs = [], [], []
     for sc, res in zip(scs, results):
